@@ -42,7 +42,7 @@ CANARIES = [
          edits=[(CM, '        self.connections.len()\n    }\n\n    fn get', '        self.connections.len().saturating_sub(1)\n    }\n\n    fn get')]),
     dict(id='ap-contains-negated', unit=U, what='contains negated', expect=['ActivePeersInner::contains::is_view_membership'],
          edits=[(CM, '        self.connections.contains_key(peer_id)\n', '        !self.connections.contains_key(peer_id)\n')]),
-    dict(id='ap-handler-tail-remove-by-peer', unit=U, what='handler exit removes whatever connection the peer has now', expect=['InboundRequestHandler::start::tail::removes_own_entry_only'],
+    dict(id='ap-handler-tail-remove-by-peer', unit=U, what='handler exit removes whatever connection the peer has now', expect=['InboundRequestHandler::start::tail::removes_own_entry_only', 'InboundRequestHandler::start::tail::reports_loss_before_teardown'],
          edits=[('crates/anemo/src/network/request_handler.rs', """        self.active_peers.remove_with_stable_id(
             self.connection.peer_id(),
             self.connection.stable_id(),
